@@ -218,6 +218,10 @@ structure Bld where
   nextId : Nat
   /-- the IDs handed out by `newSvcID` during this apply, latest first. -/
   fresh : List Nat
+  /-- ghost: every `updateService` call of this apply (service key, ID, endpoints), latest first. -/
+  calls : List (SvcKey × Nat × List Ep)
+  /-- ghost: every `bpfSvcs.Desired().Set(key, val)` of this apply, latest first. -/
+  fwrites : List (FKey × FVal)
 deriving Repr, Inhabited
 
 def affOf (svc : Svc) : Nat := svc.affinity.getD 0
@@ -229,7 +233,7 @@ def zeroKey (svc : Svc) : FKey :=
 def writeSvc (b : Bld) (svc : Svc) (id count loc flags : Nat) : Bld :=
   let flags := if svc.exclude then flags ||| flgExclude else flags
   let v : FVal := { id, count, lcl := loc, aff := affOf svc, flags }
-  { b with des := { b.des with F := b.des.F.set (zeroKey svc) v } }
+  { b with des := { b.des with F := b.des.F.set (zeroKey svc) v }, fwrites := (zeroKey svc, v) :: b.fwrites }
 
 /-- the keys of `getSvcNATKeyLBSrcRange` (family 4: IPv6 ranges are skipped). -/
 def srcKeys (svc : Svc) : List FKey :=
@@ -240,9 +244,11 @@ def srcKeys (svc : Svc) : List FKey :=
 def writeLBSrc (b : Bld) (svc : Svc) (id count loc flags : Nat) : Bld :=
   let val : FVal := { id, count, lcl := loc, aff := affOf svc, flags }
   let F1 := (srcKeys svc).foldl (fun F k => F.set k val) b.des.F
-  let F2 := if F1.has (zeroKey svc) then F1
-            else F1.set (zeroKey svc) { id, count := blackHole, lcl := 0, aff := 0, flags := 0 }
-  { b with des := { b.des with F := F2 } }
+  let b1 : Bld := { b with des := { b.des with F := F1 },
+                           fwrites := ((srcKeys svc).map (fun k => (k, val))).reverse ++ b.fwrites }
+  let bh : FVal := { id, count := blackHole, lcl := 0, aff := 0, flags := 0 }
+  if F1.has (zeroKey svc) then b1
+  else { b1 with des := { b1.des with F := F1.set (zeroKey svc) bh }, fwrites := (zeroKey svc, bh) :: b1.fwrites }
 
 /-- the backend writes of `updateService` (`writeSvcBackend` for ordinals `start, start+1, …`). -/
 def writeBackends (B : AMap BKey BVal) (id : Nat) : Nat → List Ep → AMap BKey BVal
@@ -260,7 +266,8 @@ def updateService (b : Bld) (skey : SvcKey) (svc : Svc) (id : Nat) (eps : List E
   let ro := readyOrdered eps
   let cnt := ro.length
   let loc := localReady eps
-  let b1 : Bld := { b with des := { b.des with B := writeBackends b.des.B id 0 ro } }
+  let b1 : Bld := { b with des := { b.des with B := writeBackends b.des.B id 0 ro },
+                           calls := (skey, id, eps) :: b.calls }
   let flags := if svc.intLocal then flgInternalLocal else 0
   let b2 := writeSvc b1 svc id cnt loc flags
   let cp := eps.filter (·.isLocal) ++ eps.filter (fun e => !e.isLocal)
@@ -376,7 +383,7 @@ def applyService (s : Syncer) (st : KState) (hint : AMap SvcKey Nat) (b : Bld) (
 /-- the desired maps and bookkeeping computed by `apply` before anything is written. -/
 def buildDesired (s : Syncer) (st : KState) (hint : AMap SvcKey Nat) : Bld :=
   st.svcs.foldl (fun b p => applyService s st hint b p.1 p.2)
-    { des := ⟨[], []⟩, newSvc := [], newEps := [], nextId := s.nextId, fresh := [] }
+    { des := ⟨[], []⟩, newSvc := [], newEps := [], nextId := s.nextId, fresh := [], calls := [], fwrites := [] }
 
 /-- the fresh IDs of an apply are a permutation of the block `[nextId, nextId + n)`. -/
 def freshOk (nextId : Nat) (fresh : List Nat) : Bool :=
